@@ -131,6 +131,22 @@ def faults(s, hrp, case, cls):
         cmp_decode(hrp, ''.join(t), must_reject=True, cls=cls, tag='sub%d' % len(idx))
         n += 1
     if case.get('patterns', True):
+        # a FOREIGN character with a checksum computed as a sloppy decoder would compute it (symbol value -1, what
+        # CHARSET.find() returns for a character outside the alphabet): built with the library's own checksum routine, must be
+        # refused like any other string containing a character outside the alphabet
+        data5o = [CH.index(c) for c in s[dp:-6]]
+        for k_ in sorted({0, 1, len(data5o) // 2, len(data5o) - 1} & set(range(len(data5o)))):
+            d_ = list(data5o)
+            d_[k_] = -1
+            try:
+                chk = SA.bech32_create_checksum(hrp, d_)
+            except Exception:
+                continue
+            if all(0 <= v < 32 for v in chk):
+                for foreign in ('b', 'i', '1', 'B'):
+                    t = hrp + '1' + ''.join(CH[v] if v >= 0 else foreign for v in d_) + ''.join(CH[v] for v in chk)
+                    cmp_decode(hrp, t, must_reject=True, cls=cls, tag='foreign-symbol')
+                    n += 1
         # the same data under the checksum constant of another code (Bech32m and two arbitrary ones): not a BIP173 string
         data5 = [CH.index(c) for c in s[dp:-6]]
         for const in (0x2bc830a3, 0, 0x3fffffff):
